@@ -7,7 +7,7 @@ SRCS = ['src/cleditor/STEPfile.cc', 'src/cleditor/STEPfile.inline.cc', 'src/clst
         'src/cldai/sdaiString.cc', 'src/clstepcore/sdai.cc', 'src/cldai/sdaiEnum.cc']
 HARNESSES = [
   H('working_data_n%d' % n, 'irc', 'harness/C16/h_wf.c', wrapper='harness/C16/wrap_wf.cc', repo_srcs=SRCS, irc_extra_cc=['harness/common/errordesc_stub.cc'],
-    native_lib=['src/clstepcore', 'src/clutils', 'src/cldai', 'src/cleditor'], models=['lib/cmodels/cxx_rt.c', 'lib/cmodels/printf_null.c', 'lib/cmodels/sprintf_null.c'],
+    native_lib=['src/clstepcore', 'src/clutils', 'src/cldai', 'src/cleditor'], models=['lib/cmodels/cxx_rt.c', 'lib/cmodels/printf_null.c', 'lib/cmodels/sprintf_null.c', 'lib/cmodels/mem_loops.c'],
     defs={'N': n, 'VSTR_CAP': 8, 'VSTREAM_CAP': 8, 'VOSTREAM_CAP': 40, 'VCONT_CAP': 4}, unwind=44, object_bits=11,
     bounds='%d instances with symbolic editing states over {complete, incomplete, delete, new, none}; any letter byte for the inverse mapping' % n,
     samples=[{'st': 1, 'letter': 67}, {'st': 4, 'letter': 88}],
